@@ -371,6 +371,11 @@ func (set *Set) add(hosts ...*Host) {
 		return
 	}
 	for _, host := range hosts {
+		// The address may be known already, e.g. it is announced again with
+		// another type. The old host must not stay in the healthy hosts.
+		if old, ok := set.all[host.Addr]; ok && old != host {
+			set.remove(old)
+		}
 		set.all[host.Addr] = host
 	}
 	set.addToHealthy(hosts...)
@@ -387,11 +392,19 @@ func (set *Set) remove(hosts ...*Host) {
 	if len(hosts) == 0 {
 		return
 	}
+	// The given hosts only name the addresses to remove, callers usually
+	// build them from endpoints. The hosts to drop are the current members.
+	removed := make([]*Host, 0, len(hosts))
 	for _, host := range hosts {
+		member, ok := set.all[host.Addr]
+		if !ok {
+			continue
+		}
 		delete(set.all, host.Addr)
-		host.markRemoved()
+		member.markRemoved()
+		removed = append(removed, member)
 	}
-	set.removeFromHealthy(hosts...)
+	set.removeFromHealthy(removed...)
 }
 
 // MarkHostHealthy marks the given host as healthy.
